@@ -159,6 +159,8 @@ def run(pid, rep, n_cases, plies):
         reimport_check(rep, cases, rust, stats)
     if pid == "C01":
         check_perft(rep, stats)
+    if pid == "C04":
+        check_reference_hashes(rep, stats)
     stats["cases"] = len(cases)
     stats["corpus_cases"] = len(corpus)
     stats["distinct_positions"] = len(positions)
@@ -530,3 +532,25 @@ def check_perft(rep, stats):
             ml = [x for x in m[1] if not x.startswith("sum ")]
             if ml != lines[:-1]:
                 rep.violation("model-vs-impl", f"correspondence:C01:perft {d} @ {f}", f"engine {lines[:6]} model {ml[:6]}", replay_ops=["new " + f, "perft %d" % d], no_input=True)
+
+
+def check_reference_hashes(rep, stats):
+    """C04, 'never varies between versions': positions with their hashes as recorded from the published key file at the
+    published offsets (corpus/C04_reference.txt). The model regenerates its keys from the source, so a change of the key
+    LAYOUT moves model and implementation together; this table does not move."""
+    import os
+    ref = []
+    for line in open(os.path.join(core.VERIF, "corpus", "C04_reference.txt"), encoding="utf-8"):
+        if line.strip() and not line.startswith("#"):
+            f, h = [x.strip() for x in line.split("|")]
+            ref.append((f, h))
+    out, _ = core.run_rust([["new " + f + " 0 1", "obs"] for f, _ in ref])
+    for (f, h), o in zip(ref, out):
+        stats["reference_hashes_checked"] += 1
+        if o[0] != ["ok"] or not o[1] or "|" not in o[1][0]:
+            rep.violation("impl-vs-spec", f"a recorded position is no longer imported @ {f}", f"{o[0]}", replay_ops=["new " + f + " 0 1", "obs"])
+            continue
+        got = o[1][0].split("|")[1]
+        if got != h:
+            rep.violation("impl-vs-spec", f"the hash of a position changed between versions: {got}, recorded {h} @ {f}", "",
+                          replay_ops=["new " + f + " 0 1", "obs"])
